@@ -50,7 +50,7 @@ MonStep(m, ev) ==
     IN [m EXCEPT !.bad = IF wrong = {} THEN <<>> ELSE <<"C42.verdict_differs", m.feval>>,
                  !.wit = @ \cup {"verdicts"}
                            \cup (IF \E r \in 1..Len(ev.got) : ev.got[r] THEN {"some_match"} ELSE {})
-                           \cup (IF \E r \in 1..Len(ev.got) : ~ev.got[r] THEN {"some_mismatch"} ELSE {})]
+                           \cup (IF \E r \in 1..Len(ev.got) : ~ev.got[r] THEN {"some_nonmatch"} ELSE {})]
   ELSE IF ev.k = "raised" THEN
     [m EXCEPT !.bad = <<"C42.evaluation_raised", ev.exc>>]
   ELSE m
